@@ -517,6 +517,34 @@ def int_scale_set(ctx, cls, dim, latlon, temporal):
     ctx.ensure("inv", inv(ctx, m, cls, latlon, temporal))
 
 
+@contract(P, "CovModel.integral_scale.setter[list]/redefines-anisotropy-like-len_scale",
+          params=[c for c in configs(["Gaussian", "Exponential"]) if c["dim"] in (2, 3) and not c["latlon"]] +
+                 [{"cls": "Gaussian", "dim": d, "latlon": False, "temporal": False, "via": "constructor"} for d in (2, 3)],
+          functions=["covmodel/base.py:CovModel.integral_scale", "covmodel/base.py:CovModel.integral_scale_vec",
+                     "covmodel/tools.py:set_len_anis"], timeout=60)
+def int_scale_list(ctx, cls, dim, latlon, temporal, via="setter"):
+    """`integral_scale : float or list` -- a list is formatted like a `len_scale` list: the first entry is the
+    main integral scale, the ratios define the anisotropy, so that integral_scale_vec equals the given list"""
+    a, opt, ob, mdim = sym_args(ctx, cls, dim, latlon, temporal, interior=True)
+    xs = ctx.reals("i", mdim, pos=True)
+    for x in xs:
+        ctx.require(ctx.gt(x, 0))
+    if via == "setter":
+        m = build(cls, dim, latlon, temporal, a, opt)
+        old = view(m)
+        m.integral_scale = list(xs)
+    else:
+        old = None
+        m = _quiet(getattr(gs, cls), dim=dim, var=a["var"], nugget=a["nugget"], integral_scale=list(xs),
+                   angles=list(a["angles"]), rescale=a["rescale"], temporal=temporal, **opt)
+    ctx.ensure("main-integral-scale=first-entry", ctx.eq(m.calc_integral_scale(), xs[0]))
+    ctx.ensure("anis=ratios", ctx.eq(m.anis, np.array([xs[i] / xs[0] for i in range(1, mdim)], dtype=object)))
+    ctx.ensure("integral_scale_vec=given-list", ctx.eq(m.integral_scale_vec, np.array(list(xs), dtype=object)))
+    if old is not None:
+        ctx.ensure("frame", view_eq(ctx, view(m), old, skip=("_len_scale", "_anis")))
+    ctx.ensure("inv", inv(ctx, m, cls, latlon, temporal))
+
+
 # --- constructor with a prescribed integral scale (+ variance): ghost for scipy.integrate.quad ---------
 _REAL_QUAD = None
 
